@@ -153,7 +153,8 @@ Inductive ev :=
 | ETimeouts                            (* cleanup_timeouts *)
 | ETakeAborts                          (* take_pending_aborts, broadcast *)
 | EAdvance (d : N)
-| EStray (tx sh : N) (yes : bool).   (* a misrouted / stale vote carrying tx's id from a shard that is NOT one of its participants *)
+| EStray (tx sh : N) (yes : bool).   (* a misrouted / stale vote carrying tx's id: from a shard that is NOT one of its participants,
+                                        or a duplicate (possibly with different content) for a participant that already voted *)
 
 Record gst := G {
   co : coord; ps : list part; net : list msg; gnow : N; gh : N;
@@ -261,7 +262,9 @@ Definition gstep (g : gst) (e : ev) : gst * list N :=
   | EStray tx sh yes =>
       match aget (pending (co g)) tx with
       | Some t =>
-          if mem sh (c_parts t) then (g, [9])     (* a forged vote OF a participant is outside the fault model *)
+          (* a forged FIRST vote of a participant is outside the fault model; a stale / re-sent vote with different
+             content for a participant that has already voted is a duplicate and is inside *)
+          if mem sh (c_parts t) && negb (match aget (c_votes t) sh with Some _ => true | None => false end) then (g, [9])
           else let '(c', r) := c_vote (co g) tx sh (if yes then VYes 0 else VConflict 0) in
                (G c' (ps g) (net g) (gnow g) (gh g) (dec g) (applied g) (discarded g) (cast g) (parts_of g), [r])
       | None => (g, [3])
